@@ -41,7 +41,7 @@ ASSUMPTIONS = [
     "the .fai/.agp cache beside a FASTA input is not an output file of the run",
 ]
 
-_SENTINEL_KINDS = ["empty", "short", "long", "long", "same", "same_size", "dangling_symlink", "symlink_elsewhere"]
+_SENTINEL_KINDS = ["empty", "short", "long", "long", "same", "same_size", "other_newlines", "dangling_symlink", "symlink_elsewhere"]
 
 
 def plan(tier):
@@ -142,20 +142,24 @@ class Runner:
         return a
 
     def run_cli(self, mode, fault=None):
+        """One invocation = one simulated process = one forked child: nothing
+        the tool keeps in module globals or in the logging tree reaches the
+        next invocation."""
         w = self.world
         start = len(w.trace)
-        res_box = {"r": None}
 
         def body():
-            res_box["r"] = clirun.invoke(self.cli, self.args(mode))
+            r = clirun.invoke(self.cli, self.args(mode))
             clirun.end_of_process()
+            if r.exc is not None:
+                r.exc = repr(r.exc)
+            return r
 
-        proc = w.run_solo(body, name=mode, collect=True, fault=fault)
-        if proc.outcome[0] == "crashed":
-            clirun.end_of_process()  # forget the dead process's logging handlers
+        proc = w.run_forked(body, name=mode, fault=fault)
+        res = proc.outcome[1] if proc.outcome[0] == "returned" else None
         self.evals += 1
         w.advance(1)
-        return res_box["r"], w.trace[start:]
+        return res, w.trace[start:]
 
     def wipe_out(self):
         with self.world.suspend():
@@ -182,14 +186,17 @@ class Runner:
                 p = os.path.join(self.outd, fn)
                 kind = kinds[fn]
                 old = w.clock - 100
-                if kind in ("empty", "short", "long", "same", "same_size"):
+                if kind in ("empty", "short", "long", "same", "same_size", "other_newlines"):
                     # "same": left by an earlier identical run - still a collision;
                     # "same_size": other content of exactly the new content's length
                     other = bytes((c if c in b"\n\t, " else (c ^ 1 if 33 <= (c ^ 1) < 127 else c)) for c in C[fn])
                     if other == C[fn] and other:
                         other = b"#" + other[1:]
+                    # "other_newlines": the new content with the other line-ending convention
+                    # (equal when compared in text mode, different bytes)
+                    nl = C[fn].replace(b"\r\n", b"\n") if b"\r\n" in C[fn] else C[fn].replace(b"\n", b"\r\n")
                     data = {"empty": b"", "short": b"old\n", "long": C[fn] + b"#stale tail\n" * 40 + b"x" * 2048,
-                            "same": C[fn], "same_size": other}[kind]
+                            "same": C[fn], "same_size": other, "other_newlines": nl}[kind]
                     with open(p, "wb") as fh:
                         fh.write(data)
                     w.stamp_path(p, old)
